@@ -497,7 +497,9 @@ def to_pure_dict(
 ) -> dict[str, tp.Any]:
   # Works for nnx.Variable and nnx.VariableState
   if extract_fn is None:
-    extract_fn = lambda x: x.value if hasattr(x, 'value') else x
+    extract_fn = lambda x: (
+      x.value if isinstance(x, (variablelib.Variable, variablelib.VariableState)) else x
+    )
   flat_values = {k: extract_fn(x) for k, x in to_flat_state(state)}
   return traversals.unflatten_mapping(flat_values)
 
@@ -513,7 +515,9 @@ def replace_by_pure_dict(
 
   # Works for nnx.Variable and nnx.VariableState
   if replace_fn is None:
-    replace_fn = lambda x, v: x.replace(v) if hasattr(x, 'replace') else v
+    replace_fn = lambda x, v: (
+      x.replace(v) if isinstance(x, (variablelib.Variable, variablelib.VariableState)) else v
+    )
   current_flat = dict(to_flat_state(state))
   prefixes = {kp[:i] for kp in current_flat for i in range(1, len(kp) + 1)}
 
